@@ -65,7 +65,9 @@ try:
         rc, out = sh(f'PYTHONHASHSEED=0 {PY} -m fimmc.run {pid} --tier quick', cwd='/verif',
                      env={'PYTHONPATH': wt, 'FIMMC_EVIDENCE_DIR': os.path.join(tmp, 'ev'),
                           'FIMMC_REPLAY_DIR': os.path.join(tmp, 'rp')})
-        rec['checks'][pid] = {'rc': rc, 'tail': '\n'.join(out.strip().splitlines()[-6:])[-900:]}
+        import re as _re
+        rec['checks'][pid] = {'rc': rc, 'fingerprints': sorted(set(_re.findall(r'fingerprint=(\S+)', out)))[:12],
+                              'tail': '\n'.join(out.strip().splitlines()[-6:])[-900:]}
 finally:
     sh(f'git -C /repo worktree remove --force {wt}')
     shutil.rmtree(tmp, ignore_errors=True)
